@@ -296,6 +296,7 @@ func checkMain(args []string, t *testing.T) int {
 		crashAt int
 		stderr string
 		err    error
+		hung   bool
 	}
 	results := make([]*wres, nw)
 	var wg sync.WaitGroup
@@ -311,7 +312,7 @@ func checkMain(args []string, t *testing.T) int {
 		// watchdog: a worker stops starting runs at the deadline, and no single run takes minutes; one
 		// that is still alive long after is hung (a livelock in the simulated code or in the harness).
 		// It is killed and the run it was in is handled like a crashed one - never as a violation by itself.
-		limit := 6 * time.Minute
+		limit := 4 * time.Minute
 		for _, x := range extra {
 			if x == "-deadline" {
 				limit = time.Until(time.UnixMilli(deadline)) + 5*time.Minute
@@ -329,6 +330,7 @@ func checkMain(args []string, t *testing.T) int {
 			_ = cmd.Process.Kill()
 			<-done
 			r.err = fmt.Errorf("watchdog: worker killed after %s without finishing", limit.Round(time.Second))
+			r.hung = true
 			eb.WriteString("\nWATCHDOG: worker killed after " + limit.Round(time.Second).String() + "\n")
 		}
 		r.stderr = eb.String()
@@ -386,6 +388,11 @@ func checkMain(args []string, t *testing.T) int {
 				r := runWorker(i, []string{"-from", fmt.Sprint(from), "-stride", fmt.Sprint(nw), "-total", fmt.Sprint(total), "-deadline", fmt.Sprint(deadline)}, 1)
 				agg.lines = append(agg.lines, r.lines...)
 				if r.err == nil {
+					break
+				}
+				if r.hung {
+					// not re-run (it would hang again): the check cannot decide, loudly
+					agg.err = fmt.Errorf("watchdog: run %d did not finish, its worker was killed (%v)", r.crashAt, r.err)
 					break
 				}
 				if r.crashAt < 0 {
@@ -471,6 +478,10 @@ func checkMain(args []string, t *testing.T) int {
 	crashSigs := map[string]bool{}
 	for _, c := range crashes {
 		r := runWorker(100, []string{"-only", fmt.Sprint(c.run)}, 1)
+		if r.hung {
+			undecided = append(undecided, fmt.Sprintf("run %d crashed a worker and hangs when re-run alone (worker killed by the watchdog)", c.run))
+			break
+		}
 		st := c.stderr
 		if r.err != nil {
 			st = r.stderr
